@@ -28,6 +28,7 @@ class Run:
         self._seen_keys: Dict[tuple, int] = {}
         self.extra: Dict[str, Any] = {}
         self.assumptions: List[str] = []
+        self.undecided: List[Dict[str, Any]] = []      # rule functions skipped: construct outside the evaluable subset
 
     # -- declaring -----------------------------------------------------------
     def rule(self, rid: str, statement: str, floor: int = 1):
@@ -107,6 +108,8 @@ class Run:
         elif os.path.exists(vpath):
             os.remove(vpath)
         self._write_evidence(len(violations), known_hits, excepted)
+        for u in self.undecided:
+            print(f"UNDECIDED property={self.prop} {u['rule_function']}: {u['reason'][:300]}")
         if violations:
             for o in violations:
                 print(f"  {o['rule']} {o['key']}: {o['what']}" + (f"  [{o.get('loc')}] {o.get('text', '')}" if o.get("loc") else ""))
@@ -114,7 +117,8 @@ class Run:
             return 1
         n = len(self.obligations)
         print(f"{self.prop}: OK  {n} obligations over {len(self.rules)} rules "
-              f"({len(known_hits)} known finding(s), {len(excepted)} triaged exception(s)) "
+              f"({len(known_hits)} known finding(s), {len(excepted)} triaged exception(s)"
+              + (f", {len(self.undecided)} rule function(s) UNDECIDED" if self.undecided else "") + ") "
               f"in {time.time() - self.t0:.2f}s")
         return 0
 
@@ -159,6 +163,7 @@ class Run:
                 "exceptions_applied": [{"key": o["key"], "rule": o["rule"], "reason": e["reason"]} for o, e in excepted],
                 "notes": self.notes[:60],
                 "normalisation": _inline_report(),
+                "undecided": self.undecided,
                 "exhaustive": True,
             },
             "assumptions": self.assumptions + [
